@@ -131,6 +131,11 @@ u8_t runcrypt::verify(size_t fsize)
   u8_t *hash = header.getHmac(64);
   if (hash == NULL)
     return 1;
+  // the body must hold at least one cipher block after the IV table and only whole blocks
+  fseek(fin, 0, SEEK_END);
+  long flen = ftell(fin);
+  if (flen < FILE_TEXT_MARK(threads_num) + 16 || ((flen - FILE_TEXT_MARK(threads_num)) & 0xf) != 0)
+    return 1;
   fseek(fin, FILE_IV_MARK, SEEK_SET);
   if (!hmachandle.cmphmac(header.gethtype(), key, fin, hash, fsize))
     return 2;
